@@ -40,6 +40,7 @@ type verifConfIfaceChange struct {
 
 type verifConfIfaceSt struct {
 	Changes []verifConfIfaceChange `json:"changes"`
+	ACfg    map[string][]string    `json:"acfg"`
 	Status  map[string]string      `json:"status"`
 	Same    bool                   `json:"same"`
 	NChg    int                    `json:"nchg"`
@@ -64,7 +65,7 @@ type verifConfIfaceSuite struct {
 }
 
 func (s *verifConfIfaceSuite) project(c *C, same bool) verifConfIfaceSt {
-	ps := verifConfIfaceSt{Same: same, NChg: len(s.state.Changes()), Changes: []verifConfIfaceChange{},
+	ps := verifConfIfaceSt{Same: same, ACfg: map[string][]string{"new": {}, "drop": {}, "xsrc": {}, "xdst": {}}, NChg: len(s.state.Changes()), Changes: []verifConfIfaceChange{},
 		Status: map[string]string{"a": "active", "b": "active", "c": "active", "snapd": "active"}}
 	for _, chg := range s.chgs {
 		pc := verifConfIfaceChange{Kind: chg.Kind(), Ready: chg.IsReady(), Snaps: []string{}, Done: []string{}}
